@@ -256,6 +256,9 @@ class Ctx:
         with open(os.path.join(VERIF, "evidence", self.prop + ".json"), "w") as fh:
             json.dump(ev, fh, indent=1, sort_keys=True)
             fh.write("\n")
+        for k, v in sorted(self.counters.items()):
+            if k.endswith("_not_as_specified") and v:
+                log("SPEC-DRIFT property=%s %s=%d (an internal layout differs from the specification; not a property violation by itself)" % (self.prop, k, v))
         rc = 0
         if new:
             os.makedirs(os.path.join(VERIF, "replays"), exist_ok=True)
